@@ -20,6 +20,9 @@ Serves C01 C02 C03 C05 C08 C17 C19.  Grammar (one request per line):
        | gain seg tr seed | mod seg tr rep div n seed | foci N seg tr rep div ss size seed
        | gainstm mode seg tr rep div size seed | swapgain seg tr | swapmod seg tr | swapfoci seg tr
        | swapgainstm seg tr | firminfo ty | pair <dg> | <dg>
+       | fanmask bits | readsmask bits            (bit `dev` of the mask is this device's flag)
+       | cpugpiodev v0:v1:… | gpioindev f0:f1:…   (device d gets element d mod length)
+       | debugdev v0 v1 v2 v3                     (device d, pin k gets v[(k+d) mod 4])
 <tr> ::= - | mode:value
 -/
 namespace Autd3.Drv.FwS
@@ -116,6 +119,19 @@ def parseDg1 (ws : List String) (dev : Nat) : Option (Dg × List String) :=
     let seg ← seg.toNat?; let tr ← parseTr tr
     match tr with | some (m, v) => pure (.swapGainStm seg m v, r) | none => none
   | "firminfo" :: ty :: r => do let ty ← ty.toNat?; pure (.firmInfo ty, r)
+  -- per-device forms (additive): the user closure of the datagram is evaluated for *this* device
+  | "fanmask" :: m :: r => do let m ← m.toNat?; pure (.forceFan (m.testBit dev), r)
+  | "readsmask" :: m :: r => do let m ← m.toNat?; pure (.readsFpgaState (m.testBit dev), r)
+  | "cpugpiodev" :: l :: r => do
+    let xs ← (l.splitOn ":").mapM String.toNat?
+    if xs.isEmpty then none else pure (.cpuGpioOut (xs.getD (dev % xs.length) 0), r)
+  | "gpioindev" :: l :: r => do
+    let xs ← (l.splitOn ":").mapM String.toNat?
+    if xs.isEmpty then none else pure (.gpioIn (xs.getD (dev % xs.length) 0), r)
+  | "debugdev" :: a :: b :: c :: d :: r => do
+    let a ← hexNat a; let b ← hexNat b; let c ← hexNat c; let d ← hexNat d
+    let v := #[a, b, c, d]
+    pure (.debug ((Array.range 4).map fun k => v.getD ((k + dev) % 4) 0), r)
   | _ => none
 
 /-- a datagram line → the two operations of device `dev` -/
